@@ -26,8 +26,11 @@ TRUSTED = ['hand-written model coq/Model/Reorder.v (+ transpose_t of Model/Table
            'order independently']
 from . import regen_eq as _regen_eq
 # py2v_eq: regenerate coq/Gen/UpdateIdsGen.v (Table.update_ids) from the source first
-regenerate = _regen_eq.hook(TRUSTED, ['update_ids'], 'coq/Model/Reorder.v (update_ids)', 'coq/Proofs/GenBridgeUpdateIdsProofs.v',
-                            'coq/Gen/UpdPrelude.v')
+_regenerate_update_ids = _regen_eq.hook(TRUSTED, ['update_ids'], 'coq/Model/Reorder.v (update_ids)',
+                                        'coq/Proofs/GenBridgeUpdateIdsProofs.v', 'coq/Gen/UpdPrelude.v')
+from . import regen_ord as _regen_ord
+# py2v_ord: then regenerate coq/Gen/ReorderGen.v (Table.sort_order / sort / copy / transpose / align_to); both run on every check
+regenerate = _regen_ord.hook(TRUSTED, before=_regenerate_update_ids)
 ASSUMPTIONS = ['default error profile (duplicate ids raise)',
                'metadata None and {} of an id are the same thing for the oracle (the constructor normalises; the model follows it exactly)']
 
